@@ -44,6 +44,17 @@ def gen(tier, rnd):
     for claimed in (3, 5, 40, 100):
         case(32, 0, 1, ['N', 'G 0 %d' % claimed, 'F %d' % claimed, 'R %d' % claimed, 'N', 'R 0'])
         case(32, 0, 1, ['N', 'G 0 %d' % claimed, 'N', 'N', 'R 1', 'G 1 %d' % claimed, 'F %d' % claimed])
+    # a genuine request is held back in the network; meanwhile newer ones are accepted and a forgery claims the held one's number (or a neighbour's):
+    # the forgery leaves no trace, the late original is accepted (once)
+    for b12 in (0, 1):
+        for win in (32, 8):
+            for (L, c) in ((20, 19), (20, 15), (40, 40 - win + 1), (40, 35), (9, 3)):
+                if L - c >= win:
+                    continue
+                case(win, b12, 1, ['N', 'N', 'H %d' % c, 'F %d' % L, 'G %d %d' % (L, c), 'R %d' % c, 'R %d' % c, 'N'])
+                case(win, b12, 1, ['N', 'N', 'H %d' % c, 'F %d' % L, 'G %d %d' % (L, c), 'G %d %d' % (L, c + 1), 'G %d %d' % (L, c - 1), 'R %d' % c, 'N', 'R %d' % c])
+                case(win, b12, 1, ['N', 'N', 'H %d' % c, 'F %d' % L, 'R %d' % c, 'G %d %d' % (L, c), 'R %d' % c])
+                case(win, b12, 1, ['N', 'N', 'F %d' % L, 'G %d %d' % (L, c), 'F %d' % c, 'R %d' % c])
     # sender: save callback and restarts at every point
     for freq in (1, 2, 3, 10):
         for k in range(0, 8):
@@ -64,6 +75,13 @@ def gen(tier, rnd):
                 cur += g
                 ops.append('F %d' % cur)
                 have.append(cur)
+            elif r < 0.50 and have:
+                older = [x for x in range(max(3, cur - 40), cur) if x not in have]
+                if older:
+                    o = rnd.choice(older)
+                    ops += ['H %d' % o, 'F %d' % (cur + 1), 'G %d %d' % (cur + 1, o), 'R %d' % o]
+                    cur += 1
+                    have += [o, cur]
             elif r < 0.55 and have:
                 older = [x for x in range(max(0, cur - 70), cur) if x not in have and x > 2]
                 if older:
